@@ -638,6 +638,8 @@ def _empty_name_decodes(ctx):
                 return Int(0)
             if last == "next" and ("Chars" in aty or "Bytes" in aty or "CharIndices" in aty or "slice::Iter" in aty):
                 return Agg("std::option::Option", 0, ())
+            if last in ("all", "any") and ("Chars" in aty or "Bytes" in aty or "CharIndices" in aty or "slice::Iter" in aty):
+                return Bool(1 if last == "all" else 0)     # over no characters: all = true, any = false
             return None
         try:
             res = Interp(F, b, Oracle(call=call)).run()
